@@ -16,6 +16,7 @@ import time
 import z3
 
 QUERY_TIMEOUT_MS = 60000
+INCREMENTAL_TIMEOUT_MS = 15000
 
 
 class EngineUnsupported(Exception):
@@ -68,7 +69,7 @@ class Oblig:
 class Ctx:
     def __init__(self, prefix):
         self.solver = z3.Solver()
-        self.solver.set("timeout", QUERY_TIMEOUT_MS)
+        self.solver.set("timeout", INCREMENTAL_TIMEOUT_MS)
         self.prefix = list(prefix)
         self.trace = []
         self.pending = []
@@ -150,25 +151,31 @@ class Ctx:
             self.obligs.append(ob)
             return ob
         t = time.time()
-        self.nq += 1
-        self.solver.push()
-        self.solver.add(z3.Not(goal))
-        r = self.solver.check()
-        model = None
-        if r == z3.unsat:
-            status = "proved"
-        elif r == z3.sat:
-            status = "failed"
-            model = self.solver.model()
-        else:
-            status = "unknown"
+        status, model = self.check_valid(goal)
+        if status == "unknown":
             detail = (detail or "") + " reason=" + self.solver.reason_unknown()
-        self.solver.pop()
         dt = time.time() - t
-        self.solver_time += dt
         ob = Oblig(name, status, model, list(self.trace), dt, detail)
         self.obligs.append(ob)
         return ob
+
+    def check_valid(self, goal, assumptions=()):
+        """validity of `goal` under the path condition (+ extra assumptions): 'proved' | 'failed' |
+        'unknown'.  z3 incremental first; on unknown a fresh z3 solver, then cvc5 on the SMT-LIB dump."""
+        self.nq += 1
+        t = time.time()
+        self.solver.push()
+        for a in assumptions:
+            self.solver.add(a)
+        self.solver.add(z3.Not(goal))
+        r = self.solver.check()
+        model = self.solver.model() if r == z3.sat else None
+        status = "proved" if r == z3.unsat else ("failed" if r == z3.sat else "unknown")
+        if status == "unknown":
+            status, model = second_opinion(self.solver)
+        self.solver.pop()
+        self.solver_time += time.time() - t
+        return status, model
 
     def _any_model(self):
         self.nq += 1
@@ -179,6 +186,41 @@ class Ctx:
     def feasible(self):
         self.nq += 1
         return self.solver.check() == z3.sat
+
+
+BACKEND_STATS = {"z3-incremental-unknown": 0, "z3-fresh": 0, "cvc5": 0}
+
+
+def second_opinion(solver):
+    """called with the query asserted in `solver`: try a fresh z3 solver, then the cvc5 CLI"""
+    import os
+    import subprocess
+    import tempfile
+
+    BACKEND_STATS["z3-incremental-unknown"] += 1
+    s2 = z3.Solver()
+    s2.set("timeout", QUERY_TIMEOUT_MS)
+    s2.add(*solver.assertions())
+    r = s2.check()
+    if r == z3.unsat:
+        BACKEND_STATS["z3-fresh"] += 1
+        return "proved", None
+    if r == z3.sat:
+        BACKEND_STATS["z3-fresh"] += 1
+        return "failed", s2.model()
+    try:
+        smt = "(set-logic ALL)\n" + s2.to_smt2()
+        with tempfile.NamedTemporaryFile("w", suffix=".smt2", delete=False) as f:
+            f.write(smt)
+            path = f.name
+        out = subprocess.run(["/usr/bin/cvc5", "--tlimit=60000", path], capture_output=True, text=True, timeout=90).stdout.strip()
+        os.unlink(path)
+        if out.startswith("unsat"):
+            BACKEND_STATS["cvc5"] += 1
+            return "proved", None
+    except Exception:  # noqa
+        pass
+    return "unknown", None
 
 
 CUR: Ctx = None  # type: ignore
